@@ -164,7 +164,25 @@ def check_text(data: dict, lab: Labels) -> None:
         spaced = None
     lab.tag(kind, lang)
     roots = _pool()
-    if data.get("before") is not None:
+    if data.get("before") is not None and lang == "xpath":
+        # another xpath that differs only by a blank which separates two names (`@items LeafA` is a
+        # field and a class, `@itemsLeafA` one field name) was compiled first and is still in use
+        from pyoak.match import xpath as _XM
+
+        x_before = compile_xpath(data["before"])
+        beh_before = xpath_behaviour(x_before, roots) if x_before is not None else None
+        x_a = compile_xpath(text)
+        beh_a = xpath_behaviour(x_a, roots) if x_a is not None else None
+        if x_before is not None:
+            require(xpath_behaviour(x_before, roots) == beh_before, "compiled-object-changed-by-later-compilations",
+                    f"{data['before']!r} after {text!r} was compiled")
+        _XM._AST_XPATH_CACHE.clear()
+        x_b = compile_xpath(text)
+        require((x_a is None) == (x_b is None), "acceptance-depends-on-compile-history", f"{text!r} after {data['before']!r}")
+        if x_b is not None:
+            require(xpath_behaviour(x_b, roots) == beh_a, "behaviour-depends-on-compile-history",
+                    f"{text!r} compiled after {data['before']!r} behaves differently from a fresh compilation")
+    elif data.get("before") is not None:
         # another text (differing only in blanks inside a quoted regex, where they are significant) was
         # compiled first: this text still gets its own meaning
         from pyoak.match import pattern as _PM
@@ -345,6 +363,12 @@ def st_texts(ctx: Ctx):
         ('(Strs @a = "a b")', '(Strs @a = "a  b")'), ('(Mixed @items=[(Strs @a="x y") *])', '(Mixed @items=[(Strs @a="x  y") *])'),
         ('(Strs @a=" a")', '(Strs @a="  a")'), ('(Strs @a="a ")', '(Strs @a="a  ")'), ('(Strs @a="a b")', '(Strs @a="a b ")'),
     ]).map(lambda t: {"kind": "ws-in-string", "lang": "pattern", "before": t[0], "text": t[1], "expect": "accept"})
+    xp_ws_pairs = st.sampled_from([
+        ("/Mixed/@items LeafA", "/Mixed/@itemsLeafA"), ("/Mixed/@itemsLeafA", "/Mixed/@items LeafA"),
+        ("//@child LeafA", "//@childLeafA"), ("//@items Strs", "//@itemsStrs"), ("//@itemsStrs", "//@items Strs"),
+        ("/Mixed/@items[0] LeafA", "/Mixed/@items[0]LeafA"), ("//Mixed/LeafA", "// Mixed/LeafA"), (" /Mixed", "/Mixed"),
+        ("/Mixed", " /Mixed"), ("//@one LeafA", "//@oneLeafA"),
+    ]).map(lambda t: {"kind": "ws-between-names", "lang": "xpath", "before": t[0], "text": t[1], "expect": None})
     rnd_pat = st.lists(st.sampled_from(PAT_ALPHABET), max_size=12).map(
         lambda ts: {"kind": "random", "lang": "pattern", "text": "".join(ts), "expect": None})
     rnd_xp = st.lists(st.sampled_from(XP_ALPHABET), max_size=10).map(
@@ -353,7 +377,7 @@ def st_texts(ctx: Ctx):
                     st.sampled_from(["pattern", "xpath"])).map(
         lambda t: {"kind": "unicode", "lang": t[1], "text": t[0], "expect": None})
     return st.one_of(pat, pat, pat, pat, xp, xp, xp, ill_pat, ill_xp, regex_bad, rnd_pat, rnd_xp, uni,
-                     st.one_of(deep_pat, deep_pat, deep_xp, regex_bad, ws_pairs, ws_pairs))
+                     st.one_of(deep_pat, deep_pat, deep_xp, regex_bad, ws_pairs, ws_pairs, xp_ws_pairs, xp_ws_pairs))
 
 
 # ------------------------------------------------------------------------------ atheris
